@@ -384,7 +384,15 @@ static void run_case(uint64_t idx, void *vctx) {
     int big = (prog % 4) == 2;
     int prc = make_plan(&pl, &r, path, (int) (prog & 1), (prog % 3) == 1, big);
     unlink(path);
-    if (prc) { if (shard == 0) v_note("C04", "file %llu could not be generated cleanly (rc %d): skipped", (unsigned long long) prog, prc); return; }
+    if (prc) {
+        if (shard == 0) {
+            v_note("C04", "file %llu could not be generated cleanly (rc %d): skipped", (unsigned long long) prog, prc);
+            /* the premise of the property is a properly closed file whose checksums protect its bytes: a file the library has just written
+             * and closed that the independent decoder (own CRC-32C) rejects means the protection itself is broken */
+            if (prc == -2) v_violation("C04", "setup|closed-file-rejected-by-independent-decoder", NULL, "file %llu, written and closed by the library, does not decode cleanly with the independent decoder", (unsigned long long) prog);
+        }
+        return;
+    }
     ctx_t cb = *c;
     if (big) { cb.n_b /= 8; cb.n_c /= 8; cb.n_d /= 8; cb.n_e /= 8; c = &cb; }   /* each fault copies, writes and reads back several MiB */
     uint64_t total = pl.abits + (uint64_t) (c->n_b + c->n_c + c->n_d + c->n_e);
